@@ -161,7 +161,7 @@ def run(ctx):
         # 2. chunked reading for chunk sizes >= largest record
         if n:
             biggest = max(len(R2.encode_record(x)) for x in recs)
-            ks = list(range(biggest, len(payload) + 3)) if not ctx.quick else sorted(set([biggest, biggest + 1, biggest + 3, 2 * biggest, len(payload) - len(hdr), len(payload), len(payload) + 2] + [r.randint(biggest, len(payload) + 2) for _ in range(6)]))
+            ks = list(range(biggest, len(payload) + 3)) if (not ctx.quick and len(payload) - biggest <= 1200) else sorted(set([biggest, biggest + 1, biggest + 3, 2 * biggest, len(payload) - len(hdr), len(payload), len(payload) + 2] + [r.randint(biggest, len(payload) + 2) for _ in range(ctx.pick(6, 150))]))
             for k in ks:
                 def chunked():
                     out = []
